@@ -719,3 +719,93 @@ Proof.
   { destruct (Req_dec a 0), (Req_dec b 0); auto. subst. exfalso. apply Hnz. reflexivity. }
   nra.
 Qed.
+
+(* ---------------------------------------------------------------- *)
+
+(** *** the bilateral certificate (solveBilateral of PGS and PLUS) *)
+Lemma resid_check_spec part A D rhs (pi : list R) rows :
+  resid_check ROps 0 part A D rhs pi rows = true <-> forall r, In r rows -> row_sum ROps part A D pi r = Rget rhs r.
+Proof.
+  unfold resid_check. rewrite forallb_forall. split; intros H r Hr; specialize (H r Hr).
+  - apply Rleb_true in H. cbn [ROps nabs] in H. unfold row_resid in H. cbn [ROps nsub] in H.
+    assert (E : Rget rhs r - row_sum ROps part A D pi r = 0).
+    { destruct (Req_dec (Rget rhs r - row_sum ROps part A D pi r) 0); auto. pose proof (Rabs_pos_lt _ H0). lra. }
+    lra.
+  - apply Rleb_true. cbn [ROps nabs]. unfold row_resid. cbn [ROps nsub]. rewrite H, Rminus_diag_eq, Rabs_R0 by auto. lra.
+Qed.
+Lemma offpart_zero_spec part (pi : list R) m :
+  offpart_zero ROps part pi m = true <-> forall i, (i < m)%nat -> ~ In i part -> Rget pi i = 0.
+Proof.
+  unfold offpart_zero. rewrite forallb_forall. split.
+  - intros H i Hi Hn. specialize (H i). rewrite in_seq in H. specialize (H ltac:(lia)).
+    apply orb_true_iff in H. destruct H as [H|H]. apply memb_spec in H. contradiction.
+    unfold is_zero in H. cbn [ROps nleb n0] in H. apply andb_true_iff in H. destruct H as [H1 H2]. apply Rleb_true in H1, H2. lra.
+  - intros H i Hi. apply in_seq in Hi. apply orb_true_iff. destruct (in_dec Nat.eq_dec i part) as [Hin|Hn].
+    + left. apply memb_spec; auto.
+    + right. unfold is_zero. cbn [ROps nleb n0]. rewrite (H i) by (auto; lia). apply andb_true_iff; split; apply Rleb_true; lra.
+Qed.
+Theorem bilateral_check_spec part A D rhs (pi : list R) :
+  bilateral_check ROps 0 part A D rhs pi = true <->
+  (forall r, In r part -> row_sum ROps part A D pi r = Rget rhs r) /\
+  (forall i, (i < length A)%nat -> ~ In i part -> Rget pi i = 0).
+Proof. unfold bilateral_check. rewrite andb_true_iff, resid_check_spec, offpart_zero_spec. tauto. Qed.
+
+(** row_sum is linear in the impulses *)
+Lemma vget_lsub (x y : list R) i : length x = length y -> Rget (lsub x y) i = Rget x i - Rget y i.
+Proof.
+  revert y i; induction x; destruct y; intros i H; cbn [length] in H; try lia.
+  - destruct i; cbn; ring.
+  - rewrite lsub_cons. destruct i; cbn [vget nth]. reflexivity. apply IHx. lia.
+Qed.
+Lemma fold_sub {X} (f g : X -> R) l a b :
+  fold_left (fun acc c => acc + (f c - g c)) l (a - b) = fold_left (fun acc c => acc + f c) l a - fold_left (fun acc c => acc + g c) l b.
+Proof.
+  revert a b; induction l; intros a0 b0; cbn [fold_left]. reflexivity.
+  replace (a0 - b0 + (f a - g a)) with ((a0 + f a) - (b0 + g a)) by ring. apply IHl.
+Qed.
+Lemma fold_left_ext' {X} (f g : R -> X -> R) l a : (forall acc c, f acc c = g acc c) -> fold_left f l a = fold_left g l a.
+Proof. intros H. revert a; induction l; intros a0; cbn; auto. rewrite H. apply IHl. Qed.
+Lemma row_sum_lsub part A D (x y : list R) r : length x = length y ->
+  row_sum ROps part A D (lsub x y) r = row_sum ROps part A D x r - row_sum ROps part A D y r.
+Proof.
+  intros H. unfold row_sum. cbn [ROps nadd nmul n0].
+  rewrite (fold_left_ext' _ (fun acc c => acc + (mget ROps A r c * Rget x c - mget ROps A r c * Rget y c))).
+  - replace 0 with (0 - 0) at 1 by ring. rewrite fold_sub, vget_lsub by auto. ring.
+  - intros acc c. rewrite vget_lsub by auto. ring.
+Qed.
+
+(** the quadratic form of the participating block P (A+D) ~P *)
+Definition qform part A D (v : list R) : R := fold_right Rplus 0 (map (fun r => Rget v r * row_sum ROps part A D v r) part).
+
+(** *** two impulses that both pass the exact bilateral certificate coincide when the participating block is positive definite:
+        this is why certifying the output of PLUSImpulseSolver::solveBilateral (FactorQTZ inside) decides it *)
+Theorem bilateral_certificate_unique part A D rhs (pi pi' : list R) :
+  length pi = length A -> length pi' = length A ->
+  (forall v, length v = length A -> (exists r, In r part /\ Rget v r <> 0) -> 0 < qform part A D v) ->
+  bilateral_check ROps 0 part A D rhs pi = true -> bilateral_check ROps 0 part A D rhs pi' = true -> pi = pi'.
+Proof.
+  intros L1 L2 Hpd H1 H2. apply bilateral_check_spec in H1, H2. destruct H1 as [E1 Z1], H2 as [E2 Z2].
+  set (d := lsub pi pi').
+  assert (Ld : length d = length A). { unfold d, lsub. rewrite map_length, combine_length. lia. }
+  assert (Hrow : forall r, In r part -> row_sum ROps part A D d r = 0).
+  { intros r Hr. unfold d. rewrite row_sum_lsub by lia. rewrite E1, E2 by auto. ring. }
+  assert (Hq : qform part A D d = 0).
+  { unfold qform. assert (G : forall l, (forall r, In r l -> In r part) -> fold_right Rplus 0 (map (fun r => Rget d r * row_sum ROps part A D d r) l) = 0).
+    { induction l; intros Hl; cbn [map fold_right]. reflexivity. rewrite IHl by (intros; apply Hl; cbn; auto). rewrite Hrow by (apply Hl; cbn; auto). ring. }
+    apply G; auto. }
+  assert (Hd : forall r, In r part -> Rget d r = 0).
+  { intros r Hr. destruct (Req_dec (Rget d r) 0) as [|Hne]; auto. exfalso.
+    specialize (Hpd d Ld (ex_intro _ r (conj Hr Hne))). lra. }
+  apply list_ext. lia. intros i Hi.
+  destruct (in_dec Nat.eq_dec i part) as [Hin|Hn].
+  - specialize (Hd i Hin). unfold d in Hd. rewrite vget_lsub in Hd by lia. lra.
+  - rewrite Z1, Z2 by (auto; lia). reflexivity.
+Qed.
+
+Example bilateral_example :
+  bilateral_check ROps 0 [1%nat] [[5; 1]; [1; 2]] [0; 1] [7; 6] [0; 2] = true.
+Proof.
+  apply bilateral_check_spec. split.
+  - intros r [<-|[]]. unfold row_sum. cbn. ring.
+  - intros i Hi Hn. destruct i as [|[|i]]; cbn in Hi; try lia. reflexivity. exfalso. apply Hn. cbn; auto.
+Qed.
